@@ -32,6 +32,9 @@ type c02Model struct {
 	nextID       int
 	log          []string
 	copyMode     bool
+	cbMode       bool // do-nothing callbacks get registered (through the table) on rows as they are made, attached or not
+	cbsRegd      int
+	cbsRun       int
 	donor        *tabular.ATable
 	copies       int
 	keptLists    [][]*tabular.Row
@@ -125,6 +128,27 @@ func (o c02Op) String() string {
 	return "?"
 }
 
+// bystander registers, in callback mode, a callback that does nothing but count on a row the program has just made
+// (most of the time; the table itself gets one now and then): what an application registers to watch its rows
+// being filled has no say in the shape of the table, whether the row is in the table yet or not.
+func (m *c02Model) bystander(h *tabular.Row, sel int) {
+	if !m.cbMode || (m.nextID+sel)%4 == 3 {
+		return
+	}
+	n := m.nextID + sel
+	when := cbTimes[n%len(cbTimes)]
+	cb := cbFunc(func(tabular.PropertyOwner) error { m.cbsRun++; return nil })
+	ti := (n / 4) % len(cbTargets)
+	target := cbTargetNames[ti]
+	err := m.t.RegisterPropertyCallback(h, when, cbTargets[ti], cb)
+	m.cbsRegd++
+	m.log = append(m.log, fmt.Sprintf("  (on the row made next: table.RegisterPropertyCallback(row, %s, %s, a callback that only counts) -> %v)", cbTimeNames[n%len(cbTimes)], target, err))
+	if n%7 == 0 {
+		err = m.t.RegisterPropertyCallback(m.t, when, tabular.CB_ON_ROW, cb)
+		m.log = append(m.log, fmt.Sprintf("  (and table.RegisterPropertyCallback(table, %s, ON_ROW, the same) -> %v)", cbTimeNames[n%len(cbTimes)], err))
+	}
+}
+
 func (m *c02Model) apply(o c02Op) {
 	t := m.t
 	m.log = append(m.log, o.String())
@@ -145,6 +169,7 @@ func (m *c02Model) apply(o c02Op) {
 		m.rows = append(m.rows, &c02Row{sep: true, attached: true})
 	case c02AppendNewRow:
 		h := t.AppendNewRow()
+		m.bystander(h, len(m.rows))
 		r := &c02Row{cells: []int{}, handle: h, attached: true}
 		m.rows = append(m.rows, r)
 		m.lastAttached = r
@@ -173,6 +198,7 @@ func (m *c02Model) apply(o c02Op) {
 		} else {
 			h = tabular.NewRowWithCapacity(o.k / 2)
 		}
+		m.bystander(h, o.k)
 		r := &c02Row{cells: []int{}, handle: h}
 		for i := 0; i < o.k; i++ {
 			cell, id := m.cell()
@@ -456,8 +482,14 @@ func (m *c02Model) check(c *Ctx) (string, string) {
 func c02Run(c *Ctx, ops []c02Op, sample bool) { c02RunMode(c, ops, sample, false) }
 
 func c02RunMode(c *Ctx, ops []c02Op, sample, copyMode bool) {
-	m := &c02Model{t: tabular.New(), copyMode: copyMode}
+	c02RunModes(c, ops, sample, copyMode, false)
+}
+
+func c02RunModes(c *Ctx, ops []c02Op, sample, copyMode, cbMode bool) {
+	m := &c02Model{t: tabular.New(), copyMode: copyMode, cbMode: cbMode}
 	defer func() {
+		c.Rec.Count("do-nothing_callbacks_registered_on_rows_being_built", int64(m.cbsRegd))
+		c.Rec.Count("do-nothing_callbacks_invocations", int64(m.cbsRun))
 		c.Rec.Count("cells_added_that_were_by-value_copies_of_placed_cells", int64(m.copies))
 		c.Rec.Count("cells_offered_to_separator_rows(refused)", int64(m.refused))
 	}()
@@ -568,7 +600,7 @@ func init() {
 						}
 					}
 					c.Rec.Eval(gen.Hash64("rnd", fmt.Sprint(ops)), n >= 2)
-					c02RunMode(c, ops, true, i%2 == 1)
+					c02RunModes(c, ops, true, i%2 == 1, i%4 >= 2)
 				}},
 		},
 	})
